@@ -388,6 +388,14 @@ theorem domain_rename_current {s s' : State} {d : Str} (h : domainRename s d = .
     · cases h
   · cases h; exact ⟨rfl, rfl⟩
 
+/-! ## the hypotheses are what the driver evaluates on the real server's state -/
+
+/-- The `inv=` flag printed by the driver (`invB`) decides `Inv`. -/
+theorem driver_inv_flag (s : State) : invB s = true ↔ Inv s := invB_iff s
+
+/-- The `named=` flag printed by the driver (`namedB`) decides `AllNamed`. -/
+theorem driver_named_flag (s : State) : namedB s = true ↔ AllNamed s := namedB_iff s
+
 /-! ## beyond the property's histories: nameless groups (observation, see notes/C22.md) -/
 
 /-- A live group whose name was purged keeps whatever spn it had, and from then on every
